@@ -21,6 +21,34 @@ CLAIMS = {
         "crossed part breaks the element/charge balance of every step that contains that part. NOT decided: the arithmetic inside each part "
         "(dropped term, wrong coefficient, sign error in add_*/x*_save), non-negativity, and conservation as a numerical fact."),
   note=NOTE_COMMON + "Kind vocabulary derived from the store types (engine/kinds.py). The claim is labelled `other`; it does not establish conservation."),
+ "C05": dict(
+  technique="tri-sink must-pass-through shape analysis + sibling (overload-family) structural agreement + who-may-call/who-may-write census + guarded-index and padding shape rules + enum-total switches",
+  text=("Static structural analysis of the selected-output path (IPhreeqc.cpp, CSelectedOutput.cpp, Var.c, PHRQ_io.cpp, PHRQ_io_output.cpp). Decided: "
+        "(a) every punched value reaches file, string and table through one call: each IPhreeqc::fpunchf overload forwards the same (name, format, "
+        "value) to PHRQ_io::fpunchf, to the block's string under exactly get_sel_out_string_on(block) && punch_on, and unconditionally to the block's "
+        "table through the PushBack matching the value type, all keyed by the block being punched; punch_msg and the end-of-row event likewise; "
+        "(b) the overload families of the punch path (IPhreeqc/PHRQ_io/Phreeqc fpunchf, fpunchf_user, the file and string fpunchf_helper, typed "
+        "PushBack wrappers) are structurally identical modulo the value type; (c) only that path writes table cells, appends to the strings or "
+        "writes the file stream; (d) CSelectedOutput::Get clears the VAR, range-checks row and column (>= count and < 0) before any subscript and "
+        "returns TT_ERROR with the matching code; GetSelectedOutputValue maps every VRESULT and returns an error-typed VAR for an unknown user "
+        "number (defect replayed and fixed); (e) late columns are padded to the row count, EndRow pads every column; (f) VarClear/VarCopy are total "
+        "over VAR_TYPE and deep-copy strings. Necessary conditions of 'table, string, lines and file describe the same data'. NOT decided: that a "
+        "text cell equals the table value rendered in the block's format, row-count arithmetic over all block shapes, file content on disk."),
+  note=NOTE_COMMON + "Sibling agreement compares normal forms of the resolved statement trees (engine/shape.py: line numbers, casts and the value parameter "
+       "abstracted). CSelectedOutput::DeSerialize is the one allowed extra producer of table cells (rebuilds a table from its serialized form)."),
+ "C09": dict(
+  technique="dual-sink forwarding shape of every *_msg override and base + who-may-write census + guarded-index rule on the six line accessors + rebuild pairing + post-dominance of update_errors() over every reporter mutation (with caller obligations)",
+  text=("Static structural analysis of the output channels (output, log, punch, dump, error, warning). Decided per message: (a) each IPhreeqc::*_msg "
+        "override passes its text unmodified to the string sink under `<X>StringOn && <x>_on` and to the file sink (unconditional base call, or "
+        "the direct error_ostream write under `error_ostream != NULL && error_on`); each PHRQ_io base writes under `<x>_ostream != NULL && <x>_on` "
+        "only - so a disabled sink receives nothing and two enabled sinks the same bytes; (b) no other function appends to OutputString/LogString/"
+        "DumpString or writes the streams; (c) dump file and dump string come from the same generator; (d) each Get*StringLine(n) is guarded by "
+        "`n < 0 || n >= count` on the vector it subscripts and every <X>Lines vector is rebuilt from <X>String by a getline loop; (e) every function "
+        "that clears or appends to the error/warning reporters reaches update_errors() on all normal paths (non-public helpers: at every call "
+        "site), and the run/load entry points resynchronise after their try/catch ladder - three entry points and AddError/AddWarning/"
+        "AccumulateLine violated this and were fixed after concrete replays; (f) per-user-number sink switches are keyed by the block written "
+        "(known finding: get_sel_out_string_on). NOT decided: that toggling sinks leaves results unchanged, byte identity of files on disk."),
+  note=NOTE_COMMON + "Known finding shared with C13 (get_sel_out_string_on ignores its parameter; the existing suite depends on it)."),
  "C06": dict(
   technique="static-storage census + lock typestate dataflow on per-function CFGs + who-may-call census + compile-fail witnesses",
   text=("Static structural analysis of the whole library (82 units): (a) census of every variable with static storage - "
